@@ -38,14 +38,6 @@ PINS = [
 ]
 
 
-def classify(case):
-    # ONNX initializers whose dims overflow usize are accepted by try_from_data before the F4 fix (C06)
-    t = case["term"]
-    if t.startswith("(COnnx") or t.startswith("(CRten"):
-        return "F4"
-    return None
-
-
 def main(ctx):
     ctx.rule = ("headers: every combination of extreme / boundary model_offset, model_len, tensor_data_offset for files of 32..64 "
                 "bytes, truncations, bad magic / version, random; .rten files with one constant (4 element types, inline V1/V2 and "
@@ -72,7 +64,7 @@ def main(ctx):
                              inputs=ctx.replay_inputs(), timeout=2400)
         for c in cases:
             c["tag"] = ("dbg-" if profile == "debug" else "rel-") + c["tag"]
-        ctx.correspond("load-" + profile, GROUP, REQ, cases, classify=classify, show="show", shard=400,
+        ctx.correspond("load-" + profile, GROUP, REQ, cases, show="show", shard=400,
                        fn_name="Loader.ModelC05 (Header::from_buf, rten_loader / onnx_loader constant loading via Model::load, %s build)" % profile)
     if failed and not ctx.violations:
         ctx.proof_broken(failed, "all correspondence cases of this run")
